@@ -7,6 +7,7 @@ PRELUDE = '''// GENERATED on every run from the repository's working tree -- do 
 use vstd::prelude::*;
 use vstd::std_specs::cmp::PartialEqSpecImpl;
 use vstd::std_specs::ops::AddAssignSpec;
+use std::collections::HashMap;
 verus! {
 '''
 EPILOGUE = '\n} // verus!\nfn main() {}\n'
